@@ -11,6 +11,14 @@ Proof obligations: lean/RtcVerif/Props/C04.lean.  Correspondence (Drivers/C04.le
  (c) independent oracle on solved instances (HiGHS for order-1 goals, IPOPT otherwise): envelope
      per goal / member / component / step, epsilon in [0, 1], critical goals met from their
      priority on.
+ (d) `_gp_min_max_arrays` of the real class on every goal of an accepted goal set vs the translated
+     code-level reference (`minArrRef` / `maxArrRef`), entry by entry.
+
+Translated from the source on every run (obligations besides Props/C04.lean): `update_bounds`
+(Gen/UpdateBounds.lean), the soft-to-hard conversion (Gen/HardConstraint.lean) and -- Gen/GoalCode.lean --
+`_gp_validate_goals`, `_gp_min_max_arrays`, the soft-constraint / critical-goal construction of
+`_gp_goal_constraints`, the `Goal` properties, `bounds()` / `constant_inputs()` / `parameters()` of both mixins
+(translators: harness/c04_goalcode.py, generator: translate_c04.gen_goal_code).
 """
 import itertools
 import math
@@ -139,6 +147,18 @@ DOCUMENTED = {"nominal", "weight", "critical-min", "non-monotone", "target-outsi
 # (a) validation
 
 
+def min_max_real(pr, spec, times, target_shape):
+    """the arrays `_gp_min_max_arrays` returns for the real goal object, as (size, steps) arrays; None if the
+    method raises (its own shape assertions)"""
+    goal = S.build_goal(spec, times, pr)
+    try:
+        m, M = pr._gp_min_max_arrays(goal, target_shape)
+    except Exception:
+        return None
+    ns = 1 if target_shape is None else target_shape
+    return (np.asarray(m, dtype=float).reshape((spec.size, ns)), np.asarray(M, dtype=float).reshape((spec.size, ns)))
+
+
 def stream_validate(c, N):
     K = S.problem_classes()
     rng = c.rng
@@ -183,6 +203,7 @@ def stream_validate(c, N):
                     c.disagree("Goal.is_empty", s.describe(), eouts[pos], real)
                 pos += 1
     outs = c.model(lines)
+    mm_jobs = []  # (_gp_min_max_arrays of the real class, per accepted goal) vs the translated reference
     for k, case in enumerate(cases):
         specs, keep, mono, n = case["specs"], case["keep"], case["mono"], case["n"]
         opts = {"check_monotonicity": mono}
@@ -211,6 +232,26 @@ def stream_validate(c, N):
         # ---- correspondence
         if outs is not None and outs[k] != impl:
             c.disagree("validation outcome", desc, outs[k], impl)
+        if impl == "ok" and len(mm_jobs) < 400:
+            for s in specs:
+                path = s.point is None
+                real = min_max_real(pr, s, case["inst"]["times"], n if path else None)
+                mm_jobs.append((dict(goal=s.describe(), path=path, n=n), s, path, n if path else 1, real))
+    mouts = c.model([dict(op="minmax", goal=s.wire(), path=path, n=ns) for _d, s, path, ns, _r in mm_jobs])
+    for (d, s, path, ns, real), mo in zip(mm_jobs, mouts or []):
+        c.count(("minmax", s.size, path, s.tmin[0], s.tmax[0]))
+        c.hit("min_max_arrays/" + ("raises" if real is None else "%s-%s" % (s.tmin[0], s.tmax[0])))
+        ok = True
+        for cc in range(s.size):
+            for i in range(ns):
+                for side in (0, 1):
+                    m = mo[cc][i][side]
+                    if real is None:
+                        ok = ok and m == "none"
+                    else:
+                        ok = ok and m != "none" and same(m, real[side][cc][i], exact=True)
+        if not ok:
+            c.disagree("_gp_min_max_arrays", d, mo, None if real is None else [r.tolist() for r in real])
 
 
 # ---------------------------------------------------------------------------------------------
@@ -724,9 +765,9 @@ def replay(c, rp):
     """re-run the deterministic parts (proofs, corpus, kernel enumeration, probes) and show the
     recorded failing inputs"""
     from .translate import gen_update_bounds
-    from .translate_c04 import gen_hard_constraint
+    from .translate_c04 import gen_goal_code, gen_hard_constraint
 
-    c.prove(extra=gen_update_bounds(c) + gen_hard_constraint(c))  # + kernels translated from the source on every run
+    c.prove(extra=gen_update_bounds(c) + gen_hard_constraint(c) + gen_goal_code(c))  # + kernels translated from the source
     for f in rp.get("failures", []) + rp.get("correspondence_disagreements", []):
         print("recorded:", f["what"])
     run_corpus(c)
@@ -742,7 +783,8 @@ def run(c):
         "gaps, shared function keys with monotone targets, 1-3 priorities, keep_soft on/off, single pass; "
         "validation stream = well-formed sets with 0-2 ill-forming mutations out of 26; rows stream = complete "
         "multiset of goal rows of the first priority at a random probe point; update_bounds = all 75 weak "
-        "orderings x inf placements x 2 modes; solved stream = envelope per goal/member/component/step.  "
+        "orderings x inf placements x 2 modes; solved stream = envelope per goal/member/component/step; "
+        "_gp_min_max_arrays of every goal of an accepted set vs the translated reference, entry by entry.  "
         "distinct = (stream, variant, options, mutation set, outcome, goal-shape signature) tuples"
     )
     c.assumptions = [
@@ -752,11 +794,17 @@ def run(c):
         "series covering only part of the grid is outside the model (its soft rows get the constant-input fill 0.0)",
         "goal priorities are ints; goal sizes of goals sharing a function key agree",
         "violation_tolerance is left at its default (inf); the branch it guards is not modelled",
+        "translator table of harness/c04_goalcode.py (trusted): NumPy broadcasting / transpose / np.where masks read "
+        "element-wise, a Timeseries target's values identified with the target cells, ca.if_else(fabs(t) < c, a, b) false "
+        "on nan / inf, problem.variable(name) / parameters(m)[name] = the entry of the dictionaries that "
+        "constant_inputs() / parameters() return, function keys independent of the ensemble member",
     ]
     from .translate import gen_update_bounds
-    from .translate_c04 import gen_hard_constraint
+    from .translate_c04 import gen_goal_code, gen_hard_constraint
 
-    c.prove(extra=gen_update_bounds(c) + gen_hard_constraint(c))  # + kernels translated from the source on every run
+    # + kernels translated from the source on every run (update_bounds; soft-to-hard conversion; goal validation,
+    #   target broadcasting and soft-constraint construction)
+    c.prove(extra=gen_update_bounds(c) + gen_hard_constraint(c) + gen_goal_code(c))
     run_corpus(c)
     stream_update_bounds(c)
     stream_validate(c, c.n(400, 12000))
@@ -769,5 +817,9 @@ def run(c):
                    "stored for its key (otherwise known finding F27, witness theorem C04_critical_disjoint_witness); "
                    "the validation model covers int priorities and list-shaped ranges/nominals; F23 (weight of "
                    "minimisation goals unchecked) is the code's behaviour and is mirrored by the model. ")
+    c.notes.append("Gen/GoalCode.lean (re-generated on every run): validation chain, min/max arrays, sentinel constants, "
+                   "slice indices, soft-row expression and rows, n_active, epsilon size and bounds, critical-goal member loop, "
+                   "Goal properties, constant_inputs()/parameters() of both mixins -- each proved equal to a code-level "
+                   "reference that Props/C04.lean connects to the model. ")
     c.notes.append("update_bounds enumerated over all weak orderings of its four arguments (complete for a "
                    "min/max kernel); the other streams are samples; the unbounded claims are the theorems")
